@@ -118,6 +118,42 @@ def cases(draw):
             ['release', 'release', 'release-hold-point', 'trigger',
              'restart', 'hold', 'fair']),
             st.integers(0, 31)).map(list), max_size=5))
+    if draw(st.integers(0, 3)) == 0:
+        # scripted ending: a task t with required success fails (retained as
+        # incomplete), is held, and its parent u is re-run in a new flow,
+        # which reaches t again (absorbs and re-queues it): t must stay held
+        from vf.gen.wfspec import atoms_of
+        from vf.sim.model import Model
+        model = Model(spec)
+        insts = model.instances()
+        pairs = []
+        for sec in spec['sections']:
+            for ln in sec['lines']:
+                for a in atoms_of(ln['lhs']):
+                    if (not a.get('off') and a.get('abs') is None
+                            and a['out'] == 'succeeded'):
+                        for t in ln['rhs']:
+                            o = spec['opt'].get(t, {})
+                            if t != a['t'] and not o.get('succ') and \
+                                    not o.get('fail_required'):
+                                pairs.append((a['t'], t))
+        if pairs:
+            u, t = draw(st.sampled_from(sorted(set(pairs))))
+            pts = sorted(set(model.valid[u]) & set(model.valid[t]))
+            if pts:
+                p = draw(st.sampled_from(pts))
+                outcomes[f'{p}/{t}'] = [{'final': 'failed'}]
+                spec['retries'].pop(t, None)
+                n_t = 2 * insts.index((t, p)) + 1
+                n_u = 2 * insts.index((u, p)) + 1
+                tail = [['hold', n_t], ['trigger', n_u, ['new'], False],
+                        ['fair', 3], ['fair', 3]]
+    # some triggers start a new flow (a flow that reaches a held, finished
+    # but incomplete task absorbs it and re-queues it: it must stay held)
+    for stp in sched + tail:
+        if stp[0] == 'trigger' and len(stp) == 2 and \
+                draw(st.integers(0, 2)) == 0:
+            stp.extend([['new'], False])
     return {'spec': spec, 'outcomes': outcomes, 'schedule': sched,
             'tail': tail}
 
